@@ -31,6 +31,8 @@ def universe():
     add("ba", {"$bytes": [97]})
     add("a0", []); add("a1", [{"$i64": "1"}]); add("a1", [{"$u64": "1"}]); add("a1a", [1, "a"]); add("a2", [2]); add("aa1", [[1]])
     add("am", [{"a": 1}]); add("am2", [{"a": 2}]); add("an", [None]); add("a1n", [1, None])
+    # arrays that extend one another past an element on which the partial order gives up (a map): prefix, not equal
+    add("am_2", [{"a": 1}, 2]); add("am_m", [{"a": 1}, {"a": 1}]); add("aam", [[{"a": 1}]]); add("aam_1", [[{"a": 1}], 1])
     add("m0", {}); add("ma1", {"a": {"$i64": "1"}}); add("ma1", {"a": {"$u128": "1"}}); add("ma2", {"a": 2}); add("mb1", {"b": 1})
     add("mi", {"$map": [[{"$i64": "1"}, "x"]]}); add("mi", {"$map": [[{"$u128": "1"}, "x"]]}); add("mis", {"$map": [["1", "x"]]})
     add("maa", {"a": [1]}); add("mab", {"a": 1, "b": 2})
